@@ -1,0 +1,15 @@
+//go:build verif
+
+package manager
+
+// VerifHook is only compiled with the "verif" build tag. It is called by the
+// background jobs when they start (phase -1), right before they post their
+// completion to the manager goroutine (phase 0) and after the manager
+// goroutine accepted it (phase 1). A blocking hook acts as a scheduler gate.
+var VerifHook func(kind string, phase int, args ...any)
+
+func verifHook(kind string, phase int, args ...any) {
+	if h := VerifHook; h != nil {
+		h(kind, phase, args...)
+	}
+}
